@@ -531,3 +531,106 @@ func CheckPacketReadLoop(p *Prog, rd ssa.CallInstruction, errIdx int) (bool, str
 	}
 	return true, "failed read makes the wrapper report an exit that the calling loop obeys (timeout retry accepted)"
 }
+
+// ---- delegating Read/Write wrappers ---------------------------------------------
+
+// checkDelegatingWrappers: a method Read(p)/Write(p) that hands the caller's p, unchanged, to
+// exactly one inner Read/Write (counting, logging, deadline wrappers) is transparent: every
+// return reachable from the inner call returns the inner call's byte count. Returning 0 with
+// the error drops bytes delivered together with io.EOF; returning len(p) hides short writes.
+func checkDelegatingWrappers(r *Report, rule string, pkgs ...string) int {
+	n := 0
+	for _, pk := range pkgs {
+		for _, f := range r.P.FuncsIn(pk) {
+			name := f.Name()
+			if (name != "Read" && name != "Write") || f.Signature.Recv() == nil || len(f.Params) != 2 ||
+				f.Signature.Results().Len() != 2 || f.Signature.Params().Len() != 1 {
+				continue
+			}
+			if sl, ok := f.Signature.Params().At(0).Type().Underlying().(*types.Slice); !ok || !isByte(sl.Elem()) {
+				continue
+			}
+			p := ssa.Value(f.Params[1])
+			var inner []ssa.CallInstruction
+			other := false
+			Instrs(f, func(in ssa.Instruction) {
+				ci, ok := in.(ssa.CallInstruction)
+				if !ok {
+					return
+				}
+				if _, isGo := in.(*ssa.Go); isGo {
+					other = true
+					return
+				}
+				uses := false
+				for _, a := range ci.Common().Args {
+					if stripValue(a) == p {
+						uses = true
+					}
+				}
+				if !uses {
+					// p re-sliced and handed elsewhere: not a pure delegation
+					for _, a := range ci.Common().Args {
+						if sl, ok := a.(*ssa.Slice); ok && stripValue(sl.X) == p {
+							other = true
+						}
+					}
+					return
+				}
+				c := CalleeOf(ci)
+				if b, ok := ci.Common().Value.(*ssa.Builtin); ok {
+					if b.Name() != "len" && b.Name() != "cap" {
+						other = true
+					}
+					return
+				}
+				if c.Name == name && ci.Common().Signature().Results().Len() == 2 {
+					inner = append(inner, ci)
+				} else {
+					other = true
+				}
+			})
+			if len(inner) != 1 || other {
+				continue
+			}
+			call := inner[0]
+			nv := extractOf(call, 0)
+			n++
+			bad := token.NoPos
+			for _, ret := range Returns(f) {
+				if !CanReachBlock(call.Block(), ret.Block()) {
+					continue
+				}
+				v := stripValue(RetVal(ret, 0))
+				if nv == nil || !(v == nv || phiOnly(v, nv)) {
+					bad = ret.Pos()
+				}
+			}
+			pos := CallPos(call)
+			if bad != token.NoPos {
+				pos = bad
+			}
+			r.Ob(rule, pos, bad == token.NoPos, name+" wrapper returns the byte count of the "+name+" it delegates to on every path after it (bytes delivered with an error, e.g. the last chunk with io.EOF, must not be dropped; short counts must not be hidden)", r.P.FuncName(f), "delegation-transparent")
+		}
+	}
+	return n
+}
+
+func isByte(t types.Type) bool {
+	b, ok := t.Underlying().(*types.Basic)
+	return ok && b.Kind() == types.Uint8
+}
+
+// phiOnly: v is a phi all of whose edges are x.
+func phiOnly(v, x ssa.Value) bool {
+	ph, ok := v.(*ssa.Phi)
+	if !ok {
+		return false
+	}
+	for _, e := range ph.Edges {
+		if stripValue(e) != x {
+			return false
+		}
+	}
+	return true
+}
